@@ -475,24 +475,22 @@ def progWF : List Step → Nat → Bool
   | .eval i _ :: rest, n => decide (i < n) && progWF rest n
 
 
-/-- Markers compared by identity whose copies are *other* objects in the pinned glom:
+/-- Markers compared by identity whose copies may be *other* objects:
     * `T`: `Check.glomit` tests `self.spec is not T` only to skip a `glom(target, T)` that would
-      return the target anyway — a copy of `T` takes the other branch with the same result;
-    * `M`: `_MExpr.glomit` resolves its operands with `lhs is M` / `rhs is M`, and `_MType` defines
-      no `__copy__` / `__deepcopy__` / `__reduce__`: in a deep copy of `M > 3` the operand is a
-      second `_MType` instance, `<_MType> > 3` builds a (truthy) `_MExpr`, and every target
-      passes.  A defect of the pinned glom (reported; the harness keeps deep copies of M
-      operands out of the correspondence behind `GATE_DEEPCOPY_M`); the model has no term for
-      "an `_MType` that is not `M`", so `copySpec` leaves comparison operands as they are. -/
-def identityExempt : List String := ["M", "T"]
+      return the target anyway — a copy of `T` takes the other branch with the same result.
+    `M` was the second one in the pinned glom (`_MExpr.glomit` resolves its operands with
+    `lhs is M` / `rhs is M`; a deep copy of `M > 3` held a second `_MType` instance and let every
+    target pass: defect F43, repaired by `_MType.__reduce__`, /repo 8acd988).  Since the repair
+    `M` must survive every way of copying like `_MISSING` and `RAISE`. -/
+def identityExempt : List String := ["T"]
 
 /-- **copies** (facts): the markers the matching code recognises by identity survive `copy.copy`,
     `copy.deepcopy` and a pickle round trip as the very same object — `_MISSING` ("no default
     given" in Match / And / Or / Switch / Optional) and `RAISE` (Check) in particular; the only
-    markers that do not are the two of `identityExempt`. -/
+    marker that need not is the one of `identityExempt`. -/
 def markersOK (ids : List (String × String × Bool)) : Bool :=
   ["copy", "deepcopy", "pickle"].all (fun how =>
-    markerKept ids "_MISSING" how && markerKept ids "RAISE" how) &&
+    markerKept ids "_MISSING" how && markerKept ids "RAISE" how && markerKept ids "M" how) &&
   ids.all (fun r => r.2.2 || identityExempt.contains r.1)
 
 def classOK (env : Env) (o : Origin) (c : String) : Bool :=
